@@ -8,7 +8,15 @@ instantiated with double (harness/C11/harness.cxx) on seeded tables of 1..50 nod
 On a differing line the property's own predicate is evaluated in exact rational arithmetic
 (python Fractions) on the implementation's answer: interpolation of the nodes, affine pieces,
 clamp / linear continuation, slopes solving the natural-spline equations, Hermite cubic with the
-implementation's slopes, exact integral of the extrapolated interpolant, mean value."""
+implementation's slopes, exact integral of the extrapolated interpolant, mean value.
+
+Call shapes exercised besides the plain ones (same model answers expected): ONE CubicSpline object is
+reused for every table (setCollocationPoints must forget the previous table); the iterator overload of
+setCollocationPoints called directly (raw pointers, deque iterators, empty range); query points of type
+int and float for the four free function templates; collocation points built by aggregate
+initialisation {x, y, d} in another container; the size tests of the container overload (tabm); the
+CubicSplineUninitialised test of every accessor (uninit); null pivots met at the first, at a later and
+at the last pivot test of solveTridiagonalLinearSystem."""
 import bisect
 import math
 import random
@@ -31,7 +39,48 @@ SITE = {
     "gv3": SPL + ":CubicSpline::getValues(f,df,d2f,x)",
     "int": SPL + ":CubicSpline::computeIntegral",
     "mean": SPL + ":CubicSpline::computeMeanValue",
+    "tabm": SPL + ":CubicSpline::setCollocationPoints(const AContainer&, const OContainer&) size tests",
+    "uninit": SPL + ":CubicSpline accessors without collocation points (CubicSplineUninitialised)",
 }
+HXX = "include/TFEL/Math/CubicSpline.hxx"
+VARIANT_SITE = {
+    "it": " [iterator overload setCollocationPoints(px, pxe, py) called with raw pointers]",
+    "dq": " [iterator overload setCollocationPoints(px, pxe, py) called with std::deque iterators]",
+    "i": " [query point of type int]",
+    "f": " [query point of type float]",
+    "agg": " [points built by aggregate initialisation {x, y, d}, layout of CubicSplineCollocationPoint in " + HXX + "]",
+}
+
+
+def base(op):
+    return op.split(":")[0]
+
+
+def site(op):
+    b, _, v = op.partition(":")
+    return SITE[b] + VARIANT_SITE.get(v, "")
+
+
+def to_float32(a):
+    try:
+        return struct.unpack("<f", struct.pack("<f", a))[0]
+    except OverflowError:
+        return None
+
+
+def variant_point(rng, op, a):
+    """(op with a call-shape variant, query point) : the point is moved to a value exactly representable in the
+    type the variant passes to the C++ template"""
+    r = rng.random()
+    if r < 0.12 and abs(a) < 2.0 ** 30:
+        return op + ":i", float(math.floor(a) if rng.random() < 0.5 else math.ceil(a))
+    if r < 0.24:
+        b = to_float32(a)
+        if b is not None and abs(b) != float("inf"):
+            return op + ":f", b
+    if r < 0.40 and op in ("spl", "spld"):
+        return op + ":agg", a
+    return op, a
 RTOL = Fraction(1, 10 ** 11)  # relative (to the scale of the data) error accepted by the property predicate; used on differing lines only
 
 
@@ -180,7 +229,7 @@ class Ref:
 
 # ---------------------------------------------------------------- generators
 def gen_table(rng, n):
-    kind = rng.choice(["int", "int", "dyadic", "dyadic", "rational", "gauss", "uniform", "wide", "decimal"])
+    kind = rng.choice(["int", "int", "dyadic", "dyadic", "rational", "gauss", "uniform", "wide", "decimal", "scaled"])
     if kind == "int":
         x0 = rng.randint(-5, 5)
         X = [float(x0)]
@@ -207,6 +256,16 @@ def gen_table(rng, n):
         h = rng.choice([1.0, 0.5, 0.1, 25.0, 1e-2])
         X = [x0 + i * h for i in range(n)]
         Y = [rng.choice([1.0, -1.0, 0.5]) * (i % rng.randint(2, 5)) + rng.randint(-3, 3) for i in range(n)]
+    elif kind == "scaled":
+        # the same kind of table in very small / very large units (the pivot threshold of the solver is absolute)
+        sc = 10.0 ** rng.randint(-30, 60)
+        k = rng.randint(-8, 8)
+        X = [k * sc]
+        for _ in range(n - 1):
+            k += rng.randint(1, 6)
+            X.append(k * sc)
+        ys = 10.0 ** rng.randint(-3, 3)
+        Y = [rng.gauss(0, 1) * ys for _ in range(n)]
     elif kind == "wide":
         X = [rng.randint(-8, 8) / 4.0]
         for _ in range(n - 1):
@@ -288,13 +347,16 @@ def int_branch(X, a, b):
 class Table:
     def __init__(self, kind, X, Y, D=None):
         self.kind, self.X, self.Y, self.Dgiven = kind, X, Y, D
+        self.tabop = "tab"     # or tab:it / tab:dq (iterator overload called directly)
         self.n = len(X)
         self.line = None
         self.queries = []      # (op, args tuple, line, branch)
 
     def header(self):
+        if self.kind == "mismatched":
+            return "tabm %d %d %s" % (len(self.X), len(self.Y), " ".join(hx(v) for v in self.X + self.Y))
         if self.Dgiven is None:
-            return "tab %d %s" % (self.n, " ".join(hx(v) for v in self.X + self.Y))
+            return "%s %d %s" % (self.tabop, self.n, " ".join(hx(v) for v in self.X + self.Y))
         return "tabd %d %s" % (self.n, " ".join(hx(v) for v in self.X + self.Y + self.Dgiven))
 
 
@@ -305,6 +367,7 @@ def add_queries(rng, t, nq, ordered=True):
         if op in ("lin", "lind", "spl", "spld"):
             e = rng.randint(0, 1)
             c, a = gen_point(rng, X)
+            op, a = variant_point(rng, op, a)
             t.queries.append((op, (e, a), "%s %d %s" % (op, e, hx(a)), "%s:e%d:%s" % (op, e, where(X, a))))
         elif op in ("gv", "gv2", "gv3"):
             c, a = gen_point(rng, X)
@@ -332,6 +395,13 @@ def systematic_table(X, Y, D=None):
         for e in (0, 1):
             for op in ("lin", "lind", "spl", "spld"):
                 t.queries.append((op, (e, a), "%s %d %s" % (op, e, hx(a)), "%s:e%d:%s" % (op, e, where(X, a))))
+                vs = [":agg"] if op in ("spl", "spld") else []
+                if to_float32(a) == a:
+                    vs.append(":f")
+                if a == math.floor(a):
+                    vs.append(":i")
+                for v in vs:
+                    t.queries.append((op + v, (e, a), "%s %d %s" % (op + v, e, hx(a)), "%s:e%d:%s" % (op + v, e, where(X, a))))
         for op in ("gv", "gv2", "gv3"):
             t.queries.append((op, (a,), "%s %s" % (op, hx(a)), "%s:%s" % (op, where(X, a))))
     for a in pts:
@@ -350,7 +420,9 @@ def bad_table(rng, n):
         X[i + 1] = X[i]
     else:
         X[i], X[i + 1] = X[i + 1], X[i]
-    return Table("unordered", X, Y)
+    t = Table("unordered", X, Y)
+    t.tabop = rng.choice(["tab", "tab:it", "tab:dq"])
+    return t
 
 
 # ---------------------------------------------------------------- the property, evaluated on an answer
@@ -361,17 +433,34 @@ def close(u, v, scale):
 def judge_tab(t, impl):
     """does the answer of setCollocationPoints satisfy the property ?  (holds, reason)"""
     strictly = all(t.X[i] < t.X[i + 1] for i in range(t.n - 1))
+    if t.kind == "mismatched":
+        return None, ("abscissa and ordinate containers of different sizes (%d, %d): outside the property's domain; the "
+                      "answer is not the documented rejection" % (len(t.X), len(t.Y)))
     if t.n == 0 or not strictly:
         if impl.startswith("ok"):
             return None, "a table outside the property's domain (empty or not strictly increasing) is accepted"
         return True, ""
     if t.kind == "huge-span":
+        if impl.startswith("ok"):
+            try:
+                d = [unhx(s) for s in impl.split()[1:]]
+            except (ValueError, struct.error):
+                d = []
+            if len(d) != t.n or not finite(d):
+                return False, ("a pivot below 100*DBL_MIN is divided by instead of being reported (CubicSplineNullPivot): "
+                               "the spline is built with missing or non-finite slopes, it does not return the tabulated values")
         return None, "intervals longer than 1/(100*DBL_MIN): outside the floating-point range where the construction is expected to succeed"
     if not impl.startswith("ok"):
         return False, "construction of the spline fails (%s) on a strictly increasing table" % impl
-    d = [unhx(s) for s in impl.split()[1:]]
-    if len(d) != t.n or not finite(d):
-        return False, "slopes are missing or not finite"
+    try:
+        d = [unhx(s) for s in impl.split()[1:]]
+    except (ValueError, struct.error):
+        d = []
+    if len(d) != t.n:
+        return False, ("after setCollocationPoints on a %d-node table getCollocationPoints returns %d points (the spline "
+                       "does not interpolate the table that was given)" % (t.n, len(d)))
+    if not finite(d):
+        return False, "slopes are not finite"
     res = Ref(t.X, t.Y, d).natural_residual()
     if res > RTOL:
         return False, ("the slopes do not solve the natural-spline equations (C2 continuity at interior nodes, zero second "
@@ -381,6 +470,7 @@ def judge_tab(t, impl):
 
 def judge_query(t, D, op, args, impl):
     """(holds, reason) for a query line, given the implementation's slopes D (already judged)"""
+    op = base(op)
     f = impl.split()
     try:
         vals = [unhx(s) for s in f]
@@ -448,6 +538,10 @@ def judge_query(t, D, op, args, impl):
 
 
 
+def tab_op(t):
+    return "tabm" if t.kind == "mismatched" else t.tabop
+
+
 def run_implementation(ck, harness, lines, index):
     """run the harness on all request lines; when it aborts (sanitizer, uncaught exception) the request being
     processed is recorded as a crash and the run resumes after it (the current table is re-installed first)"""
@@ -495,7 +589,20 @@ def run(ck):
 
     # ---- corpus: systematic small tables, then seeded tables of every size 1..50
     tables = []
-    tables.append(Table("empty", [], []))
+    t0 = Table("empty", [], [])
+    t0.queries.append(("uninit", (), "uninit", "uninit"))
+    tables.append(t0)
+    t0 = Table("empty", [], [])
+    t0.tabop = "tab:it"                     # the iterator overload on an empty range
+    tables.append(t0)
+    t0 = Table("empty", [], [])
+    t0.tabop = "tab:dq"
+    tables.append(t0)
+    # container overload with vectors of different sizes (rejected before anything is read)
+    for nx, ny in ((0, 0), (0, 2), (2, 0), (1, 0), (3, 2), (2, 3), (1, 2), (5, 1), (7, 6)):
+        if nx == ny:
+            continue
+        tables.append(Table("mismatched", [float(i) for i in range(nx)], [1.0 + 0.5 * i for i in range(ny)]))
     tables.append(systematic_table([1.0], [2.0]))
     tables.append(systematic_table([0.0, 1.0], [1.0, 3.0]))
     tables.append(systematic_table([0.0, 1.0, 2.0], [1.0, 2.0, 4.0]))           # the example of the documentation
@@ -506,14 +613,29 @@ def run(ck):
     # intervals so long that the pivots fall under 100*DBL_MIN : the CubicSplineNullPivot branch
     tables.append(Table("huge-span", [-8e307, 8e307], [1.0, 2.0]))
     tables.append(Table("huge-span", [-8e307, 0.0, 8e307], [1.0, 2.0, 0.0]))
+    # ... met only at a later test of the forward sweep / only at the test of the last pivot after the sweep
+    tables.append(Table("huge-span", [0.0, 1.0, 1e308, 1.7e308], [1.0, 2.0, 0.0, 1.0]))
+    tables.append(Table("huge-span", [0.0, 1.0, 2.0, 1.6e308], [1.0, 2.0, 0.0, 1.0]))
+    tables.append(Table("huge-span", [0.0, 1.0, 2.0, 3.0, 1.6e308], [1.0, -2.0, 0.5, 1.0, 3.0]))
+    # the same object now holds a failed construction: the next tables must not see it
+    t0 = systematic_table([0.5, 1.0, 2.5], [1.0, -1.0, 2.0])
+    t0.tabop = "tab:it"
+    tables.append(t0)
+    t0 = systematic_table([-2.0, -1.0], [3.0, 1.0])
+    t0.tabop = "tab:dq"
+    tables.append(t0)
     reps = 1 if ck.quick else 8
     nq = 40 if ck.quick else 120
     sizes = list(range(1, 51)) * reps
     for n in sizes:
         kind, X, Y = gen_table(rng, n)
         t = Table(kind, X, Y)
+        t.tabop = rng.choice(["tab", "tab", "tab:it", "tab:dq"])
         add_queries(rng, t, nq)
         tables.append(t)
+        if rng.random() < 0.08:
+            ny = rng.choice([k for k in (0, 1, n - 1, n + 1, n + 3) if k >= 0 and k != n])
+            tables.append(Table("mismatched", X, [float(rng.randint(-9, 9)) for _ in range(ny)]))
         if rng.random() < 0.35:
             D = [rng.randint(-16, 16) / 4.0 if rng.random() < 0.7 else rng.gauss(0, 2) for _ in range(n)]
             t2 = Table(kind + "+slopes", X, Y, D)
@@ -539,7 +661,7 @@ def run(ck):
     crash_keys = set()
     for (k, err) in crashes:
         t, q = index[k]
-        op = "tab" if q is None else q[0]
+        op = tab_op(t) if q is None else q[0]
         if op in crash_keys:
             continue
         crash_keys.add(op)
@@ -549,14 +671,14 @@ def run(ck):
             if w in err:
                 kind = w
                 break
-        ck.violation("%s:crash" % SITE[op],
+        ck.violation("%s:crash" % site(op),
                      "%s on a %d-node %s table: the implementation crashes (%s) instead of returning a value" % (op, t.n, t.kind, kind),
-                     {"function": op, "site": SITE[op], "n": t.n, "table_kind": t.kind, "abscissae": t.X, "values": t.Y,
+                     {"function": op, "site": site(op), "n": t.n, "table_kind": t.kind, "abscissae": t.X, "values": t.Y,
                       "slopes_given": t.Dgiven, "request_lines": [t.header()] + ([q[2]] if q else []),
                       "arguments": list(q[1]) if q else None, "model": model[k][:300] if k < len(model) else "?",
                       "stderr": err, "table_strictly_increasing": strictly,
                       "how_to_replay": "feed request_lines to the harness built from harness/C11/harness.cxx (doubles as IEEE-754 hex)"},
-                     strictly and t.n > 0)
+                     strictly and t.n > 0 and t.kind != "mismatched")
 
     branches = {}
     kinds = {}
@@ -586,7 +708,7 @@ def run(ck):
                     slopes[id(t)] = None
             else:
                 slopes[id(t)] = None
-            br = "tab:" + o
+            br = tab_op(t) + ":" + o
         else:
             br = q[3]
         branches[br] = branches.get(br, 0) + 1
@@ -598,15 +720,18 @@ def run(ck):
             skipped_lines += 1
             continue
         disagreements += 1
-        op = "tab" if q is None else q[0]
+        op = tab_op(t) if q is None else q[0]
         if q is None:
             holds, why = judge_tab(t, a)
         else:
             D = slopes.get(id(t))
             strictly = all(t.X[k] < t.X[k + 1] for k in range(t.n - 1))
-            if not strictly:
+            if op == "uninit":
+                holds, why = None, ("an accessor of a CubicSpline without collocation points does not raise "
+                                    "CubicSplineUninitialised (outside the property's domain: no table)")
+            elif not strictly:
                 holds, why = None, "table outside the property's domain"
-            elif op in ("lin", "lind"):
+            elif base(op) in ("lin", "lind"):
                 holds, why = judge_query(t, None, op, q[1], a)
             elif D is None or len(D) != t.n or not finite(D):
                 holds, why = None, "no usable slopes for this table (see the violation reported for its construction)"
@@ -614,17 +739,17 @@ def run(ck):
                 holds, why = judge_query(t, D, op, q[1], a)
         if q is None:
             tab_differs.add(id(t))
-        elif id(t) in tab_differs and holds is not False and op not in ("lin", "lind"):
+        elif id(t) in tab_differs and holds is not False and base(op) not in ("lin", "lind"):
             # the slopes of this table already differ from the model's (reported above): a query that still is
             # the Hermite interpolant / exact integral for the implementation's own slopes is not a new finding
             downstream += 1
             continue
         cls = "property" if holds is False else "value"
-        key = "%s:%s" % (SITE[op], cls)
+        key = "%s:%s" % (site(op), cls)
         if key in reported:
             continue
         reported.add(key)
-        rep = {"function": op, "site": SITE[op], "n": t.n, "table_kind": t.kind, "abscissae": t.X, "values": t.Y,
+        rep = {"function": op, "site": site(op), "n": t.n, "table_kind": t.kind, "abscissae": t.X, "values": t.Y,
                "slopes_given": t.Dgiven, "implementation_slopes": slopes.get(id(t)),
                "request_lines": [t.header()] + ([q[2]] if q else []),
                "arguments": list(q[1]) if q else None, "branch": br,
@@ -635,7 +760,7 @@ def run(ck):
             ck.violation(key, "%s on a %d-node %s table: %s" % (op, t.n, t.kind, why), rep, True)
         else:
             ck.violation("corr:" + key, "correspondence Model.lean vs %s broken (%d-node %s table, branch %s)%s" % (
-                SITE[op], t.n, t.kind, br, "; the implementation's answer still satisfies the property" if holds else "; " + why), rep, False)
+                site(op), t.n, t.kind, br, "; the implementation's answer still satisfies the property" if holds else "; " + why), rep, False)
     if len(model) != len(lines):
         ck.violation("corr:line-count", "the model driver answered %d lines for %d requests" % (len(model), len(lines)),
                      {"model_lines": len(model), "requests": len(lines)}, False)
@@ -653,7 +778,7 @@ def run(ck):
             (q[2] if q else "tab %d ..." % t.n)[:60], t.n, t.kind, (impl[i] if i < len(impl) else "?")[:52], (model[i] if i < len(model) else "?")[:52]))
     return ck.finish({
         "evaluations": len(lines), "distinct_nontrivial": len(branches),
-        "rule": "requests = 8 systematic small tables (every node / midpoint / quarter point / outside point x every entry point, integrals over every pair) + seeded tables of every size 1..50 (kinds: integer, dyadic, rational, gaussian, uniform, wide-scale, decimal; a third re-installed with arbitrary slopes; some made non-increasing) x queries at nodes / between / midpoints / outside / far / first / last / one ulp from a node, extrapolation on and off; distinct = (entry point, extrapolate flag, branch of the search or shape of the integration range) classes observed",
+        "rule": "requests = 10 systematic small tables (every node / midpoint / quarter point / outside point x every entry point, integrals over every pair) + seeded tables of every size 1..50 (kinds: integer, dyadic, rational, gaussian, uniform, wide-scale, decimal, scaled by 1e-30..1e60; a third re-installed with arbitrary slopes; some made non-increasing) x queries at nodes / between / midpoints / outside / far / first / last / one ulp from a node, extrapolation on and off; call shapes: container / iterator (pointer, deque) overloads on one reused CubicSpline object, query points of type double / int / float, points built by aggregate initialisation, mismatched container sizes, accessors of an empty spline; distinct = (entry point, extrapolate flag, branch of the search or shape of the integration range) classes observed",
         "exhaustive": False, "disagreements": disagreements, "tables": len(tables),
         "traces_validated_against_impl": len(lines),
         "branch_histogram": branches, "table_kind_histogram": kinds, "table_size_histogram": sizes_seen,
